@@ -56,7 +56,8 @@ package nasConvert
 //@   ensures implies(SuImsi(buf) && buf[7] < 10, suci[SuOH(buf)] == 48 + buf[7])
 //@   ensures implies(SuImsi(buf) && buf[7] >= 10 && buf[7] < 100, suci[SuOH(buf)] == 48 + buf[7] / 10 && suci[SuOH(buf) + 1] == 48 + buf[7] % 10)
 //@   ensures implies(SuImsi(buf) && buf[7] >= 100, suci[SuOH(buf)] == 48 + buf[7] / 100 && suci[SuOH(buf) + 1] == 48 + (buf[7] / 10) % 10 && suci[SuOH(buf) + 2] == 48 + buf[7] % 10)
-//@   ensures implies(SuImsi(buf), forall(j, 0, SuSL(buf), suci[SuOS(buf) + j] == HexCh(SuSNib(buf, j))))
+//@   ensures implies(SuImsi(buf) && buf[6] == 0, forall(j, 0, 2*(len(buf) - 8) - ite((buf[len(buf)-1] >> 4) == 15, 1, 0), suci[SuOS(buf) + j] == HexCh(ite(j & 1 == 0, buf[8 + (j >> 1)] & 15, buf[8 + (j >> 1)] >> 4))))
+//@   ensures implies(SuImsi(buf) && buf[6] != 0, forall(j, 0, 2*(len(buf) - 8), suci[SuOS(buf) + j] == HexCh(ite(j & 1 == 0, buf[8 + (j >> 1)] >> 4, buf[8 + (j >> 1)] & 15))))
 //@   ensures implies(SuImsi(buf), plmnId[0] == suci[7] && plmnId[1] == suci[8] && plmnId[2] == suci[9] && plmnId[3] == suci[11] && plmnId[4] == suci[12])
 //@   ensures implies(SuImsi(buf) && SuML(buf) == 3, plmnId[5] == suci[13])
 //@ end
